@@ -346,6 +346,9 @@ for _s in [ReadSpec('msg-empty-T', 'message', TOLERANT, MSG_CHAINS, MSG_TARGET),
 
 # ------------------------------------------------------------------------- E1 sweep (thorough)
 
+DEEP_ROOTS = ('msg-empty-T', 'seg-empty-T', 'fld-empty-T', 'seg-built-T', 'seg-empty-S')
+
+
 def sweep_unit(unit, tier):
     from hl7apy.core import Segment
     v, seg = unit
@@ -403,7 +406,14 @@ def run(tier, seed, extra):
     sids = common.rotate(sorted(SPECS), seed)
     # the roots built through the add_* helpers differ from the parsed ones in how their first children were created: one
     # level less is enough to reach a read and a write after that
-    out = hist.bfs_many(__name__, sids, depth, tier, total, depth_of={sid: depth - 1 for sid in sids if SPECS[sid].built})
+    depth_of = {sid: depth - 1 for sid in sids if SPECS[sid].built}
+    if tier != 'quick':
+        # depth 4 multiplies the transitions by the alphabet size (~70): it is spent on one root of each kind, the other
+        # roots stay at depth 3
+        for sid in sids:
+            if sid not in DEEP_ROOTS:
+                depth_of[sid] = 3
+    out = hist.bfs_many(__name__, sids, depth, tier, total, depth_of=depth_of)
     per = {}
     for sid in sids:
         n, sizes = out[sid]
@@ -413,7 +423,7 @@ def run(tier, seed, extra):
     units = [(v, s) for v in vs for s in (tables.segment_names(v) if tier != 'quick' else tables.segment_names(v)[::4])]
     sw = common.run_units(sweep_unit, common.rotate(units, seed), tier)
     total.merge(sw)
-    extra['bounds'] = {'depth': depth, 'roots': sids, 'states_per_depth': per, 'sweep_versions': vs,
+    extra['bounds'] = {'depth': depth, 'depth_per_root': {sid: depth_of.get(sid, depth) for sid in sids}, 'roots': sids, 'states_per_depth': per, 'sweep_versions': vs,
                        'sweep_segments': len(units), 'chains': {k: list(v) for k, v in MSG_CHAINS.items()}}
     return total
 
